@@ -113,7 +113,7 @@ def run(vc):
         bound="6 power flows of two fixed networks (meshed 20 kV net with ZIP load, shunt, storage, sgen, two gens; 110 kV chain whose q limits "
               "become binding in two successive rounds) with / without angles, voltage dependent loads, enforce_q_lims",
         script="import sys\nfrom replaylib.setpoints import main, main_reference_buses_only\n"
-               "for f in (main, main_reference_buses_only):\n    try:\n        f()\n    except SystemExit as e:\n        if e.code:\n            raise\n",
+               "from replaylib import run_all\nrun_all(main, main_reference_buses_only)\n",
         known={"C04/enforce_q_lims-ignored-in-networks-of-reference-buses-without-branches":
                r"REPRODUCED: one bus with ext_grid, gen and load, algorithm=(nr|iwamoto_nr): gen 0 q = 30\.0000 Mvar outside"}))
 
